@@ -21,10 +21,13 @@ let run_hist ?(spec_like = false) (noop : bool) (step : world -> wop -> (world *
   let created i = (match (List.nth !w.sbs i).st with Created -> true | _ -> false) in
   List.iter (fun tok ->
       if not !stop then begin
+        (* a leading '!': the operation's abort is recoverable — the refused step leaves the state as it was (World.wrun_rec) *)
+        let recover = String.length tok > 0 && tok.[0] = '!' in
+        let tok = if recover then String.sub tok 1 (String.length tok - 1) else tok in
         let o = String.split_on_char ':' tok in
         let c = List.hd o in
         let arg n = int_of_string (List.nth o n) in
-        let abort () = add (c ^ "=ABORT"); stop := true in
+        let abort () = add (c ^ "=ABORT"); if not recover then stop := true in
         (match c with
          | "go" when (match cb_owner_at !w (ni (arg 1)) with None -> true | Some (i, _) -> not (created (int_of_nat i))) ->
            add (match cb_owner_at !w (ni (arg 1)) with None -> "go=dead" | Some _ -> "go=notcreated")
